@@ -56,7 +56,11 @@ def run(ctx, clause, scenarios, nontrivial=nontrivial_default, names_for=None, w
         ctx.traces += 1
         sc = by_id.get(o["sc"]["id"])
         ctx.case((o["sc"]["id"], o["driver"], o["run"]), nontrivial(sc) if sc else True)
-        if (o["exit"] == 0) != v["expectOk"] and o["exit"] >= 0 and "point" not in o["_run"]:
+        if (o["exit"] == 0) != v["expectOk"] and o["exit"] >= 0 and "point" not in o["_run"] and "File name too long" in o["_run"]["stderr"] and v["expectOk"]:
+            # a directory copied into its own subtree: the real walk descends into what it has just created until ENAMETOOLONG;
+            # the model's walk is over the initial tree (named abstraction, DESIGN 7)
+            ctx.notes["self_nesting_runs (model walk is over the initial tree)"] = ctx.notes.get("self_nesting_runs (model walk is over the initial tree)", 0) + 1
+        elif (o["exit"] == 0) != v["expectOk"] and o["exit"] >= 0 and "point" not in o["_run"]:
             ctx.drift.append({"id": v["id"], "driver": v["driver"], "exit": o["exit"], "model_expect_ok": v["expectOk"],
                               "stderr": o["_run"]["stderr"][-200:]})
         for c in v["viol"]:
